@@ -663,6 +663,34 @@ def run(tree, pre=None):
     return buf.getvalue(), res
 
 
+case("record unpacked with **rec._asdict(): expanded to keywords", '''
+    from typing import NamedTuple, Optional
+    class Cbs(NamedTuple):
+        end: Optional[int]
+        cancel: Optional[int]
+    def callee(x, *, flag=True, end=None, cancel=None):
+        return (x, flag, end, cancel)
+    def run(a, b):
+        cbs = Cbs(end=a, cancel=b)
+        out = []
+        for i in range(2):
+            out.append(callee(i, **cbs._asdict()))
+        return out
+    def rebound(a, b):
+        cbs = Cbs(end=a, cancel=b)
+        cbs = Cbs(end=None, cancel=None)
+        return callee(0, **cbs._asdict())
+    def clash(a, b):
+        cbs = Cbs(end=a, cancel=b)
+        try:
+            return callee(0, end=5, **cbs._asdict())
+        except TypeError as e:
+            return "TypeError"
+    def main():
+        return [run(1, 2), rebound(1, 2), clash(1, 2)]
+''', 0)
+
+
 def main():
     bad = 0
     for name, src, inlined in CASES:
